@@ -271,13 +271,13 @@ class GitMerge(Merge):
 class NbDiff(GitDiff):
     pass
 
-class NbDiffWeb(Web, GitDiff):
+class NbDiffWeb(GitDiff, Web):
     pass
 
 class NbMerge(Merge):
     pass
 
-class NbMergeWeb(Web, Merge):
+class NbMergeWeb(Merge, Web):
 
     show_base = Bool(
         True,
